@@ -53,77 +53,38 @@ def extra(res, facts, entries, protos):
 
 
 def header_table(res, facts):
-    """R3: Header::<V, P>::default maps (version string, purpose string) to the static whose literal is "vN.purpose."."""
+    """R3: Header::<V, P>::default() evaluated (abstract interpretation with the type parameters bound) yields "vN.purpose." for the 8 protocols."""
+    from .. import absint as A
+    from .. import models as MD
     bs = S.impl_fns(facts, r"^crate::core::header::Header<Version, Purpose>$", r"^core::default::Default$", "default")
     if len(bs) != 1:
         res.violate("C07.R3", "Header::default", "anchor missing", "expected one Default impl for Header<Version, Purpose>, found %d" % len(bs))
         return
     b = bs[0]
     v = M.view(facts, b)
-    N = M.Normalizer(facts, keep=[])
-    # decision structure: chains of `<str as PartialEq>::eq(version_str, const)` / purpose; each arm assigns a static
-    arms = {}
-    sws = M.bool_switches(v)
-    eqs = {}
-    for sw in sws:
-        t = N.norm(sw["term"])
-        eq = M.as_equality(t)
-        if eq and sw["ty"] == "bool":
-            a, bb, pos, kind = eq
-            const = a if a.op == "const" else bb
-            other = bb if a.op == "const" else a
-            nm = M.show(other)
-            which = "version" if ("<Version as" in nm and "<Purpose as" not in nm) else ("purpose" if ("<Purpose as" in nm and "<Version as" not in nm) else None)
-            tr, fl = M.truth_edges(sw)
-            eqs[sw["block"]] = (which, const.name if const.op == "const" else None, tr if pos else fl, fl if pos else tr)
-    # walk from entry following equal edges to enumerate (version, purpose) -> header constant
-    hdr_local = None
-    table = {}
-
-    def static_assigned(block):
-        for st in v.body["blocks"][block]["stmts"]:
-            if st["k"] == "assign":
-                t = N.norm(v.rv_term(st["rv"]))
-                if t.op == "const" and isinstance(t.name, str) and t.meta.get("static"):
-                    return t.name, t.meta["static"]
-                if t.op == "const" and isinstance(t.name, str) and st["rv"]["k"] == "use" and st["rv"]["op"]["k"] == "const" and "str" in st["rv"]["op"]:
-                    return t.name, None
-        return None
-
-    def walk(block, ver, pur, depth):
-        if depth > 60:
-            return
-        sa = static_assigned(block)
-        if sa is not None:
-            table.setdefault((ver, pur), set()).add(sa[0])
-            return
-        if block in eqs:
-            which, lit, eq_t, ne_t = eqs[block]
-            if which == "version":
-                walk(eq_t, lit, pur, depth + 1)
-                walk(ne_t, ver, pur, depth + 1)
-            elif which == "purpose":
-                walk(eq_t, ver, lit, depth + 1)
-                walk(ne_t, ver, pur, depth + 1)
-            return
-        for s2 in v.cfg.succ[block]:
-            walk(s2, ver, pur, depth + 1)
-    walk(0, None, None, 0)
-    n = 0
+    got_all = []
     for (vv, pp) in S.PROTOS:
         want = PR.HEADER[(vv, pp)]
-        got = table.get((vv.lower(), pp.lower()))
-        ok = got == {want}
+        I = A.Interp(facts, MD.MODELS)
+        I.root_tparams = {"Version": "crate::core::version::%s::%s" % (vv.lower(), vv), "Purpose": "crate::core::purpose::%s::%s" % (pp.lower(), pp)}
+        outs = I.run(b, [])
+        vals = set()
+        for o in outs:
+            if o.kind != "return" or o.state.unmodelled:
+                vals.add("undecided (%s)" % (o.state.unmodelled or o.value,))
+                continue
+            r = I.resolve(o.state, o.value)
+            h = MD.deref(I, o.state, r.fields.get("header")) if isinstance(r, A.Struct) else None
+            vals.add(h.s if isinstance(h, A.StrV) else repr(h))
+        ok = vals == {want}
         res.oblige(ok)
+        got_all += list(vals)
         if ok:
-            n += 1
-            res.inst("C07.R3", "Header::default: (%s, %s) -> %r" % (vv.lower(), pp.lower(), want))
+            res.inst("C07.R3", "Header::<%s, %s>::default().header = %r" % (vv, pp, want))
         else:
-            res.violate("C07.R3", b["id"], "header for (%s, %s)" % (vv.lower(), pp.lower()), "Header::default must map (%s, %s) to %r; the decision structure yields %s" % (vv.lower(), pp.lower(), want, sorted(got) if got else "nothing (unrecognised table shape, fail closed)"),
-                        file=v.file(), line=b["line"])
-    vals = [x for k, s in table.items() if k[0] and k[1] for x in s]
-    if len(set(vals)) != len(vals):
-        res.violate("C07.R3", b["id"], "header strings not distinct", "two protocols share a header string: %s" % sorted(vals), file=v.file(), line=b["line"])
+            res.violate("C07.R3", b["id"], "header for (%s, %s)" % (vv.lower(), pp.lower()), "Header::<%s, %s>::default() must carry %r; abstract evaluation gives %s" % (vv, pp, want, sorted(vals)), file=v.file(), line=b["line"])
+    if len(set(got_all)) != len(got_all):
+        res.violate("C07.R3", b["id"], "header strings not distinct", "two protocols share a header string: %s" % sorted(got_all), file=v.file(), line=b["line"])
 
 
 def header_writers(res, facts):
